@@ -1944,6 +1944,12 @@ func (p *Parser) parseRateLimit() (*ast.RateLimit, error) {
 		return nil, fmt.Errorf("expected rate limit value, got %s", p.current().Type)
 	}
 
+	// The server enforces an unrecognised unit as "per minute", so a typo such
+	// as 10/hours would silently admit sixty times the declared rate.
+	if !isRateLimitWindow(window) {
+		return nil, fmt.Errorf("unknown rate limit window %q (expected sec, min, hour or day)", window)
+	}
+
 	if err := p.expect(RPAREN); err != nil {
 		return nil, err
 	}
@@ -1952,6 +1958,16 @@ func (p *Parser) parseRateLimit() (*ast.RateLimit, error) {
 		Requests: requests,
 		Window:   window,
 	}, nil
+}
+
+// isRateLimitWindow reports whether unit is one of the window spellings the
+// server knows how to enforce.
+func isRateLimitWindow(unit string) bool {
+	switch strings.ToLower(strings.TrimSpace(unit)) {
+	case "s", "sec", "second", "m", "min", "minute", "h", "hr", "hour", "d", "day":
+		return true
+	}
+	return false
 }
 
 // parseStatement parses a statement
